@@ -702,7 +702,7 @@ func checkRangeToReadAlwaysWalks(c *Ctx, rule string) {
 		entry: noWalk,
 		node: func(n ast.Node, s uint64) uint64 {
 			for _, call := range callsIn(n) {
-				if hasSuffixAny(calleeID(b.Info(), call), "go-immutable-radix.Node.Walk", "go-immutable-radix.Node.WalkPrefix") {
+				if hasSuffixAny(calleeID(b.Info(), call), "go-immutable-radix.Node.Walk") { // the full walk: a marker before the window decides where its first bytes come from
 					return walked
 				}
 			}
@@ -1166,7 +1166,9 @@ func checkWALDecoderAcceptsWhatAddStores(c *Ctx, rule string) {
 
 // checkUploadBatchProtocol (C04, C06): the collector of uploadBundle keeps received entries in a batch and writes
 // file lists from it. Typestate of the batch over the collector's CFG:
-//   empty --append--> dirty --write(list)--> written --reset--> empty
+//
+//	empty --append--> dirty --write(list)--> written --reset--> empty
+//
 // obligations: every received entry is appended (the receive case appends filePacked2BundleEntry of the received
 // value); a batch is written exactly when it holds entriesPerFile entries; after a write the batch is reset before
 // the next append; the bundle descriptor is written only with an empty or written batch (the final `len != 0` test
@@ -1590,4 +1592,612 @@ func checkReadAtOffsetWithinLeaf(c *Ctx, rule string) {
 	if n == 0 {
 		c.softUndecided("%s: chunkReader.ReadAt no longer slices a leaf buffer at a within-leaf offset", rule)
 	}
+}
+
+// checkNoReuseAfterSend (C07 and the properties built on listings): a slice handed to another goroutine through a
+// channel is not recycled by the sender: `buf = append(buf[:0], …)` on a slice that also flows into a send (directly or
+// inside a composite literal) overwrites a page the consumers are still reading — keys of earlier pages vanish, later
+// ones appear twice, and nothing reports an error.
+func checkNoReuseAfterSend(c *Ctx, rule string, pkgs ...string) int {
+	p := c.P
+	n := 0
+	for _, pk := range pkgs {
+		for _, f := range p.FuncsIn(pk) {
+			if f.Decl.Body == nil {
+				continue
+			}
+			info := f.Info()
+			// recycled slices
+			recycled := map[*types.Var]ast.Node{}
+			ast.Inspect(f.Decl.Body, func(nd ast.Node) bool {
+				as, ok := nd.(*ast.AssignStmt)
+				if !ok || len(as.Lhs) != 1 || len(as.Rhs) != 1 {
+					return true
+				}
+				id, ok := ast.Unparen(as.Lhs[0]).(*ast.Ident)
+				if !ok {
+					return true
+				}
+				v, _ := info.Uses[id].(*types.Var)
+				if v == nil {
+					v, _ = info.Defs[id].(*types.Var)
+				}
+				call, ok := ast.Unparen(as.Rhs[0]).(*ast.CallExpr)
+				if v == nil || !ok || calleeID(info, call) != "builtin.append" || len(call.Args) < 1 {
+					return true
+				}
+				if se, ok := ast.Unparen(call.Args[0]).(*ast.SliceExpr); ok && isVar(info, se.X, v) && se.Low == nil && se.High != nil {
+					if tv, ok := info.Types[se.High]; ok && tv.Value != nil && tv.Value.ExactString() == "0" {
+						recycled[v] = as
+					}
+				}
+				return true
+			})
+			if len(recycled) == 0 {
+				continue
+			}
+			for v, at := range recycled {
+				n++
+				sent := false
+				var sendPos token.Pos
+				ast.Inspect(f.Decl.Body, func(nd ast.Node) bool {
+					snd, ok := nd.(*ast.SendStmt)
+					if !ok {
+						return true
+					}
+					if usesObj(info, snd.Value, v) {
+						sent, sendPos = true, snd.Pos()
+					}
+					return true
+				})
+				c.check(!sent, rule, f.ID+":"+v.Name(), p.Pos(at.Pos()),
+					"the recycled slice never leaves the goroutine",
+					"slice `"+v.Name()+"` is recycled in place (append(x[:0], …)) and also sent on a channel (at "+p.Pos(sendPos)+"): the receivers still read the previous contents when the next page overwrites them — items are lost or duplicated without any error")
+			}
+		}
+	}
+	return n
+}
+
+// checkEmptyObjectReadable (C01): the writer stores an empty content as a root blob holding the root key only (no leaf
+// key). The readers of root blobs must accept that: no failure of verifiedKeys / LeafKeys is conditioned on the number
+// of leaf keys being zero.
+func checkEmptyObjectReadable(c *Ctx, rule string) {
+	p := c.P
+	for _, fid := range []string{"pkg/cafs.verifiedKeys", "pkg/cafs.LeafKeys", "pkg/cafs.leavesForHash"} {
+		f := p.FuncOpt(fid)
+		if f == nil || f.Decl.Body == nil {
+			continue
+		}
+		info := f.Info()
+		b := p.BodyOf(f)
+		bad := ""
+		ast.Inspect(f.Decl.Body, func(nd ast.Node) bool {
+			ifs, ok := nd.(*ast.IfStmt)
+			if !ok {
+				return true
+			}
+			// condition comparing the length of a []Key / the number of keys with 0
+			isEmptyTest := false
+			for _, cj := range conjuncts(ifs.Cond) {
+				be, ok := ast.Unparen(cj).(*ast.BinaryExpr)
+				if !ok {
+					continue
+				}
+				call, ok := ast.Unparen(be.X).(*ast.CallExpr)
+				if !ok || calleeID(info, call) != "builtin.len" || len(call.Args) != 1 {
+					continue
+				}
+				if sl, ok := info.TypeOf(call.Args[0]).Underlying().(*types.Slice); ok && namedTypeID(sl.Elem()) == "pkg/cafs.Key" {
+					if tv, ok := info.Types[be.Y]; ok && tv.Value != nil && (tv.Value.ExactString() == "0" || tv.Value.ExactString() == "1") && (be.Op == token.EQL || be.Op == token.LSS || be.Op == token.LEQ) {
+						isEmptyTest = true
+					}
+				}
+			}
+			if !isEmptyTest || len(ifs.Body.List) == 0 {
+				return true
+			}
+			if r, ok := ifs.Body.List[len(ifs.Body.List)-1].(*ast.ReturnStmt); ok && b.classifyReturn(r) == retFailure {
+				bad = exprString(ifs.Cond)
+			}
+			return true
+		})
+		c.check(bad == "", rule, fid, p.Pos(f.Decl.Pos()),
+			"a root blob without leaf keys (the empty object) is accepted",
+			fid+" fails when `"+bad+"`: the writer stores the empty content as a root blob with no leaf key, so an empty file can be written but not read back")
+	}
+}
+
+// checkWriterChannelsUnbuffered (C01, C02, C15): the flush goroutines hand keys and errors to the writer's flush thread
+// through unbuffered channels: a flusher's slot is released only after its value was received, so the hand-shake of
+// Flush (all slots re-acquired) implies everything was collected. A buffered channel lets the hand-shake overtake a
+// queued error.
+func checkWriterChannelsUnbuffered(c *Ctx, rule string) {
+	p := c.P
+	n := 0
+	for _, f := range p.FuncsIn("pkg/cafs") {
+		if f.Decl.Body == nil {
+			continue
+		}
+		info := f.Info()
+		check := func(field string, val ast.Expr, at ast.Node) {
+			if field != "errC" && field != "flushChan" {
+				return
+			}
+			call, ok := ast.Unparen(val).(*ast.CallExpr)
+			if !ok || calleeID(info, call) != "builtin.make" {
+				return
+			}
+			n++
+			unb := len(call.Args) == 1
+			if len(call.Args) == 2 {
+				if tv, ok := info.Types[call.Args[1]]; ok && tv.Value != nil && tv.Value.ExactString() == "0" {
+					unb = true
+				}
+			}
+			c.check(unb, rule, f.ID+":"+field, p.Pos(at.Pos()),
+				"fsWriter."+field+" is unbuffered",
+				"fsWriter."+field+" is created buffered: a flush goroutine can queue its value, release its slot and let Flush complete its hand-shake before the flush thread received it — a failed leaf write is lost and Put returns a key over fewer leaves")
+		}
+		ast.Inspect(f.Decl.Body, func(nd ast.Node) bool {
+			switch x := nd.(type) {
+			case *ast.CompositeLit:
+				if namedTypeID(info.TypeOf(x)) == "pkg/cafs.fsWriter" {
+					for _, el := range x.Elts {
+						if kv, ok := el.(*ast.KeyValueExpr); ok {
+							if id, ok := kv.Key.(*ast.Ident); ok {
+								check(id.Name, kv.Value, kv)
+							}
+						}
+					}
+				}
+			case *ast.AssignStmt:
+				for i, l := range x.Lhs {
+					if sel, ok := ast.Unparen(l).(*ast.SelectorExpr); ok && i < len(x.Rhs) {
+						if s := info.Selections[sel]; s != nil && namedTypeID(s.Recv()) == "pkg/cafs.fsWriter" {
+							check(sel.Sel.Name, x.Rhs[i], x)
+						}
+					}
+				}
+			}
+			return true
+		})
+	}
+	if n < 2 {
+		c.fail(rule, "pkg/cafs:writer-channels", "-", "expected the 2 channel creations of the writer (flushChan, errC), found "+itoa(n))
+	}
+}
+
+// checkNoStreamInRetry (C01, C04): the source of a Put is a one-shot stream. It must not be consumed inside the operand
+// of a retry loop: a second attempt copies only what the first left (usually nothing) and succeeds with a truncated or
+// empty object.
+func checkNoStreamInRetry(c *Ctx, rule string, pkgs ...string) int {
+	p := c.P
+	n := 0
+	for _, pk := range pkgs {
+		for _, f := range p.FuncsIn(pk) {
+			if f.Decl.Body == nil {
+				continue
+			}
+			info := f.Info()
+			// io.Reader-typed parameters of f
+			var streams []*types.Var
+			sig := f.Obj.Type().(*types.Signature)
+			for i := 0; i < sig.Params().Len(); i++ {
+				pv := sig.Params().At(i)
+				if id := namedTypeID(pv.Type()); id == "io.Reader" || id == "io.ReadCloser" {
+					streams = append(streams, pv)
+				}
+			}
+			if len(streams) == 0 {
+				continue
+			}
+			ast.Inspect(f.Decl.Body, func(nd ast.Node) bool {
+				call, ok := nd.(*ast.CallExpr)
+				if !ok || !strings.HasSuffix(calleeID(info, call), "backoff/v4.Retry") || len(call.Args) < 1 {
+					return true
+				}
+				n++
+				var operand *ast.FuncLit
+				switch a := ast.Unparen(call.Args[0]).(type) {
+				case *ast.FuncLit:
+					operand = a
+				case *ast.Ident:
+					if v, ok := info.Uses[a].(*types.Var); ok {
+						for _, d := range defsOfVarWithIndex(f, v) {
+							if l, ok := d.rhs.(*ast.FuncLit); ok && d.rhs != nil {
+								operand = l
+							}
+						}
+					}
+				}
+				bad := ""
+				if operand != nil {
+					for _, sv := range streams {
+						if usesObj(info, operand.Body, sv) {
+							bad = sv.Name()
+						}
+					}
+				}
+				c.check(bad == "", rule, callKey(f, call), p.Pos(call.Pos()),
+					"the retried operand does not consume a stream parameter",
+					"the operand retried by backoff.Retry consumes the stream parameter `"+bad+"` of "+f.ID+": a one-shot reader cannot be replayed, so a retry after a transient failure copies only the rest of the stream and reports success for a truncated object")
+				return true
+			})
+		}
+	}
+	return n
+}
+
+// checkLabelVersionSplitGuarded (C08): the `{key}#{version}` convention is internal to versioned listings. getLabelAsync
+// may split a key on '#' only when versions were requested: label names may hold '#'.
+func checkLabelVersionSplitGuarded(c *Ctx, rule string) {
+	p := c.P
+	f := p.Func("pkg/core.getLabelAsync")
+	info := f.Info()
+	n := 0
+	ast.Inspect(f.Decl.Body, func(nd ast.Node) bool {
+		call, ok := nd.(*ast.CallExpr)
+		if !ok {
+			return true
+		}
+		id := calleeID(info, call)
+		if !(id == "strings.Split" || id == "strings.SplitN" || id == "strings.Cut" || id == "strings.Index" || id == "strings.LastIndex") || len(call.Args) < 2 {
+			return true
+		}
+		if s, ok := constString(info, call.Args[1]); !ok || s != "#" {
+			return true
+		}
+		n++
+		guarded := false
+		for x := f.parentOf(call); x != nil; x = f.parentOf(x) {
+			if ifs, ok := x.(*ast.IfStmt); ok && encloses(ifs.Body, call.Pos()) {
+				for _, cj := range conjuncts(ifs.Cond) {
+					if id, ok := ast.Unparen(cj).(*ast.Ident); ok {
+						if v, ok := info.Uses[id].(*types.Var); ok && paramIndex(f, v) >= 0 {
+							if b, ok := v.Type().Underlying().(*types.Basic); ok && b.Kind() == types.Bool {
+								guarded = true
+							}
+						}
+					}
+				}
+			}
+		}
+		c.check(guarded, rule, callKey(f, call), p.Pos(call.Pos()),
+			"a key is split on '#' only when versions were requested",
+			"getLabelAsync splits every key on '#', also for non-versioned listings: a label whose name holds '#' can be set and read by name but makes every listing that covers it fail (or lists it under a truncated name)")
+		return true
+	})
+	if n == 0 {
+		c.softUndecided("%s: getLabelAsync no longer splits versioned keys on '#'", rule)
+	}
+}
+
+// checkDeleteRepoRemovesEveryLabel (C09): DeleteRepo deletes each label of the listing of all labels of the repository
+// (a loop ranging directly over that listing calls DeleteLabel with the element's name): labels that point to no
+// listed bundle must go too, or they reappear in a repository later created under the same name.
+func checkDeleteRepoRemovesEveryLabel(c *Ctx, rule string) {
+	p := c.P
+	f := p.Func("pkg/core.DeleteRepo")
+	info := f.Info()
+	ok := false
+	ast.Inspect(f.Decl.Body, func(nd ast.Node) bool {
+		rs, isR := nd.(*ast.RangeStmt)
+		if !isR {
+			return true
+		}
+		d := describeExprAt(f, rs.X)
+		if !strings.HasPrefix(d, "call:pkg/core.ListLabels(param#0,") {
+			return true
+		}
+		vid, _ := rs.Value.(*ast.Ident)
+		if vid == nil {
+			return true
+		}
+		rv := info.Defs[vid]
+		// DeleteLabel(repo, stores, <elem>.Name, …) directly in this loop's body (not in a nested loop over something else)
+		for _, st := range rs.Body.List {
+			ast.Inspect(st, func(m ast.Node) bool {
+				if _, nested := m.(*ast.RangeStmt); nested {
+					return false
+				}
+				if call, isC := m.(*ast.CallExpr); isC && calleeID(info, call) == "pkg/core.DeleteLabel" && len(call.Args) >= 3 {
+					if sel, isS := ast.Unparen(call.Args[2]).(*ast.SelectorExpr); isS && sel.Sel.Name == "Name" {
+						if id, isI := ast.Unparen(sel.X).(*ast.Ident); isI && info.Uses[id] == rv && describeExpr(f, call.Args[0], 0) == "param#0" {
+							ok = true
+						}
+					}
+				}
+				return true
+			})
+		}
+		return true
+	})
+	c.check(ok, rule, f.ID, p.Pos(f.Decl.Pos()),
+		"every label of the repository's label listing is deleted",
+		"DeleteRepo no longer calls DeleteLabel for each element of the listing of all labels of the repository (e.g. it deletes only the labels of listed bundles): a label pointing to no listed bundle survives and shows up in a repository later created under the same name")
+}
+
+// checkShortReadIsNotEOF (C01, C03): a Read that returns fewer bytes than asked is legal and does not mean the stream
+// is exhausted. The leaf read loops of pkg/cafs may leave the loop on an error, on io.EOF or on a zero-byte read, never
+// on a comparison of the count with the room that was offered.
+func checkShortReadIsNotEOF(c *Ctx, rule string) {
+	p := c.P
+	n := 0
+	for _, f := range p.FuncsIn("pkg/cafs") {
+		if f.Decl.Body == nil {
+			continue
+		}
+		info := f.Info()
+		ast.Inspect(f.Decl.Body, func(nd ast.Node) bool {
+			loop, ok := nd.(*ast.ForStmt)
+			if !ok {
+				return true
+			}
+			// count variables of Read calls made directly in this loop
+			counts := map[types.Object]*ast.CallExpr{}
+			ast.Inspect(loop.Body, func(m ast.Node) bool {
+				as, ok := m.(*ast.AssignStmt)
+				if !ok || len(as.Lhs) != 2 || len(as.Rhs) != 1 {
+					return true
+				}
+				call, ok := ast.Unparen(as.Rhs[0]).(*ast.CallExpr)
+				if !ok {
+					return true
+				}
+				sel, ok := ast.Unparen(call.Fun).(*ast.SelectorExpr)
+				if !ok || sel.Sel.Name != "Read" || len(call.Args) != 1 {
+					return true
+				}
+				if id, ok := as.Lhs[0].(*ast.Ident); ok {
+					if o := info.ObjectOf(id); o != nil {
+						counts[o] = call
+					}
+				}
+				return true
+			})
+			for o, call := range counts {
+				n++
+				bad := ""
+				ast.Inspect(loop.Body, func(m ast.Node) bool {
+					ifs, ok := m.(*ast.IfStmt)
+					if !ok || len(ifs.Body.List) == 0 {
+						return true
+					}
+					switch last := ifs.Body.List[len(ifs.Body.List)-1].(type) {
+					case *ast.BranchStmt:
+						if last.Tok != token.BREAK {
+							return true
+						}
+					case *ast.ReturnStmt:
+					default:
+						return true
+					}
+					ast.Inspect(ifs.Cond, func(e ast.Node) bool {
+						be, ok := e.(*ast.BinaryExpr)
+						if !ok {
+							return true
+						}
+						switch be.Op {
+						case token.LSS, token.LEQ, token.NEQ, token.GTR, token.GEQ:
+						default:
+							return true
+						}
+						for i, side := range []ast.Expr{be.X, be.Y} {
+							id, ok := ast.Unparen(side).(*ast.Ident)
+							if !ok || info.Uses[id] != o {
+								continue
+							}
+							other := []ast.Expr{be.Y, be.X}[i]
+							if tv, ok := info.Types[other]; ok && tv.Value != nil && tv.Value.ExactString() == "0" {
+								continue
+							}
+							// n < something (or something > n): a short-read test
+							if (i == 0 && (be.Op == token.LSS || be.Op == token.LEQ || be.Op == token.NEQ)) || (i == 1 && (be.Op == token.GTR || be.Op == token.GEQ || be.Op == token.NEQ)) {
+								bad = exprString(be)
+							}
+						}
+						return true
+					})
+					return true
+				})
+				c.check(bad == "", rule, callKey(f, call), p.Pos(call.Pos()),
+					"the read loop is left on an error, io.EOF or a zero-byte read only",
+					"the read loop of "+f.ID+" stops when `"+bad+"`: a short read is legal io.Reader behaviour, so a leaf delivered in several reads is truncated (hash verification fails on an intact object, or too few bytes are served when verification is off)")
+			}
+			return true
+		})
+	}
+	if n < 2 {
+		c.fail(rule, "pkg/cafs:read-loops", "-", "expected the 2 leaf read loops of pkg/cafs (readLeaf, chunkReader.Read), found "+itoa(n))
+	}
+}
+
+// checkCacheOnlyVerifiedLeaves (C03, C15): cache hits are served without verification, so a leaf enters the LRU cache
+// only after readLeaf returned it with a nil error (readLeaf verifies before returning).
+func checkCacheOnlyVerifiedLeaves(c *Ctx, rule string) {
+	p := c.P
+	n := 0
+	isAdd := func(info *types.Info) func(ast.Node) bool {
+		return func(nd ast.Node) bool {
+			call, ok := nd.(*ast.CallExpr)
+			if !ok {
+				return false
+			}
+			sel, ok := ast.Unparen(call.Fun).(*ast.SelectorExpr)
+			if !ok {
+				return false
+			}
+			s := info.Selections[sel]
+			return s != nil && s.Kind() == types.FieldVal && s.Obj().Name() == "addToCache" && namedTypeID(s.Recv()) == "pkg/cafs.chunkReader"
+		}
+	}
+	isReadLeaf := func(b *Body, call *ast.CallExpr) bool {
+		sel, ok := ast.Unparen(call.Fun).(*ast.SelectorExpr)
+		if !ok {
+			return false
+		}
+		s := b.Info().Selections[sel]
+		return s != nil && s.Kind() == types.FieldVal && s.Obj().Name() == "readLeaf"
+	}
+	for _, f := range p.FuncsIn("pkg/cafs") {
+		if f.Decl.Body == nil {
+			continue
+		}
+		for _, b := range p.BodiesOf(f) {
+			bad, nT, _ := b.guardedByNilErrOpt(isReadLeaf, isAdd(b.Info()), true)
+			if nT == 0 {
+				continue
+			}
+			n += nT
+			c.check(len(bad) == 0, rule, b.Key(), p.Pos(b.Pos()),
+				"a leaf is added to the cache only after readLeaf returned a nil error",
+				"a leaf buffer is added to the LRU cache on a path where readLeaf failed or its error was not tested: cache hits are never verified, so a corrupt leaf is then served with a nil error by every later ReadAt")
+		}
+	}
+	if n < 2 {
+		c.fail(rule, "pkg/cafs:addToCache", "-", "expected the 2 cache insertions (ReadAt, seekAhead), found "+itoa(n))
+	}
+	// readLeaf itself: a verification failure returns no buffer
+	f := p.Func("pkg/cafs.readLeafFunc")
+	for _, b := range p.BodiesOf(f) {
+		isVerify := func(bb *Body, call *ast.CallExpr) bool {
+			return calleeID(bb.Info(), call) == "pkg/cafs.chunkReader.verifyHash"
+		}
+		if len(b.findCalls(isVerify, false)) == 0 {
+			continue
+		}
+		ok := true
+		ast.Inspect(b.Block, func(nd ast.Node) bool {
+			ifs, isIf := nd.(*ast.IfStmt)
+			if !isIf || ifs.Init == nil {
+				return true
+			}
+			found := false
+			for _, call := range callsIn(ifs.Init) {
+				if isVerify(b, call) {
+					found = true
+				}
+			}
+			if !found {
+				return true
+			}
+			for _, st := range ifs.Body.List {
+				if r, isR := st.(*ast.ReturnStmt); isR && len(r.Results) > 0 {
+					if id, isI := ast.Unparen(r.Results[0]).(*ast.Ident); !isI || id.Name != "nil" {
+						ok = false
+					}
+				}
+			}
+			return true
+		})
+		c.check(ok, rule, f.ID+":verify-failure", p.Pos(f.Decl.Pos()),
+			"a leaf that fails verification is not handed to the caller",
+			"readLeaf returns the buffer of a leaf that failed hash verification: callers may cache or serve it")
+	}
+}
+
+// checkNoTruncatingConsumer (C03): the sequential cafs reader verifies a leaf when it meets that leaf's io.EOF. A
+// consumer that stops after a byte count (io.LimitReader, io.CopyN, io.ReadFull, io.ReadAtLeast, io.NewSectionReader)
+// never reads the last leaf's EOF, so the last leaf goes unverified; a wrapper also hides WriteTo, the verify-then-write
+// path. Readers obtained from cafs Fs.Get are not wrapped that way in the download and mount code.
+func checkNoTruncatingConsumer(c *Ctx, rule string, pkgs ...string) {
+	p := c.P
+	n, nGet := 0, 0
+	for _, pk := range pkgs {
+		for _, f := range p.FuncsIn(pk) {
+			if f.Decl.Body == nil {
+				continue
+			}
+			info := f.Info()
+			isGet := func(e ast.Expr) bool {
+				call, ok := ast.Unparen(e).(*ast.CallExpr)
+				if !ok {
+					return false
+				}
+				id := calleeID(info, call)
+				return id == "pkg/cafs.Fs.Get" || id == "pkg/cafs.Fs.GetAt"
+			}
+			var readers []*types.Var
+			for _, v := range lhsVars(info, f.Decl.Body, isGet) {
+				if v != nil {
+					readers = append(readers, v)
+				}
+			}
+			nGet += len(readers)
+			if len(readers) == 0 {
+				continue
+			}
+			ast.Inspect(f.Decl.Body, func(nd ast.Node) bool {
+				call, ok := nd.(*ast.CallExpr)
+				if !ok {
+					return true
+				}
+				id := calleeID(info, call)
+				switch id {
+				case "io.LimitReader", "io.CopyN", "io.ReadFull", "io.ReadAtLeast", "io.NewSectionReader":
+				default:
+					return true
+				}
+				for _, a := range call.Args {
+					for _, rv := range readers {
+						if usesObj(info, a, rv) {
+							n++
+							c.fail(rule, callKey(f, call), p.Pos(call.Pos()),
+								shortCallee(id)+" bounds the consumption of a cafs reader: the sequential reader verifies a leaf at that leaf's io.EOF, which a consumer stopping at a byte count never reads — the last leaf (the only one of a small file) is delivered unverified, and the wrapper hides the verify-then-write WriteTo path")
+						}
+					}
+				}
+				return true
+			})
+		}
+	}
+	if n == 0 {
+		c.ok(rule, strings.Join(pkgs, ",")+":scan", "-", itoa(nGet)+" variables bound by cafs Fs.Get/GetAt calls; none of the readers is consumed through a byte-count-bounded wrapper")
+	}
+	if nGet == 0 {
+		c.fail(rule, "cafs.Fs.Get:sites", "-", "expected at least one cafs Fs.Get/GetAt call site in "+strings.Join(pkgs, ","))
+	}
+}
+
+// checkTrackerTxnCommitted (C22): once trackWrite opened a transaction on the marker tree, every way out of the
+// function passes `t.tracker = txn.Commit()`: the deletions queued by the walk are otherwise lost and the merged
+// ranges keep their inner markers.
+func checkTrackerTxnCommitted(c *Ctx, rule string) {
+	p := c.P
+	f := p.Func("pkg/filetracker.TFile.trackWrite")
+	b := p.BodyOf(f)
+	info := f.Info()
+	const closed, open = 1, 2
+	bad := 0
+	nOpen := 0
+	b.run(flowSpec{
+		entry: closed,
+		node: func(n ast.Node, s uint64) uint64 {
+			for _, call := range callsIn(n) {
+				id := calleeID(info, call)
+				if strings.HasSuffix(id, "go-immutable-radix.Tree.Txn") {
+					nOpen++
+					s = open
+				}
+				if strings.HasSuffix(id, "go-immutable-radix.Txn.Commit") {
+					// must be stored back in the receiver's tree
+					if as, ok := n.(*ast.AssignStmt); ok && len(as.Lhs) == 1 {
+						if sel, ok := ast.Unparen(as.Lhs[0]).(*ast.SelectorExpr); ok && describeExpr(f, sel, 0) == "recv.tracker" {
+							s = closed
+						}
+					}
+				}
+			}
+			return s
+		},
+		exit: func(blk *cfg.Block, ret *ast.ReturnStmt, s uint64) {
+			if s&open != 0 {
+				bad++
+			}
+		},
+	})
+	c.check(bad == 0 && nOpen > 0, rule, f.ID, p.Pos(f.Decl.Pos()),
+		"every exit after the transaction was opened passes t.tracker = txn.Commit()",
+		"trackWrite can return after opening its transaction without committing it into t.tracker: the markers deleted by the walk stay in the tree, so a write that bridges two tracked ranges leaves the gap reported as base data")
 }
